@@ -52,10 +52,11 @@ PROPS['C18'] = {
 }
 
 PROPS['C16'] = {
-    'units': ['rename'],
+    'units': ['rename', 'serdecase'],
     'title': 'rename_all case conversion agrees with serde_derive',
     'technique': 'Verus contracts on the six RenameExt methods, rename_all_to_case and get_ident (extracted verbatim) against a Seq<char> '
-                 'transcription of serde_derive 1.0.214 case.rs; known-finding classes carved out as spec predicates',
+                 'specification of serde_derive 1.0.214 case.rs; the vendored real case.rs is itself proved equal to that specification (unit serdecase); '
+                 'known-finding classes carved out as spec predicates',
     'level_text': 'For every string (any length, every Unicode scalar) and each of the eight rules, in field and in variant position, the name '
                   'typeshare computes equals serde_derive\'s outside the declared known-finding classes (kf_field / kf_variant), an unknown rule '
                   'leaves the name unchanged, serde(rename) overrides the rule; none of these functions can panic and every loop terminates.',
@@ -117,7 +118,7 @@ PROPS['C17'] = {
     'design_ref': 'DESIGN.md section 5 C17',
 }
 PROPS['C07'] = {
-    'units': ['rename', 'topo', 'cfg', 'cfg_all', 'merge', 'write', 'tos', 'deps'], 'kani': ['kint'],
+    'units': ['rename', 'topo', 'cfg', 'cfg_all', 'merge', 'write', 'tos', 'deps', 'serdecase'], 'kani': ['kint'],
     'title': 'never panics or spins (kernel)',
     'technique': 'panic-freedom (unwrap/index/slice/overflow/callee preconditions) and termination (decreases) obligations of every function put under '
                  'contract for the other properties, with weakest preconditions (Verus); Kani overflow/cast checks on integer.rs',
